@@ -408,10 +408,18 @@ def nthroot_fixed(y, n, prec, exp1):
         fn = mpf_rdiv_int(1, fn, start)
         r = mpf_pow(y1, fn, start)
         r = to_int(r)
-    extra = 10
+    # guard bits: every Newton step loses about 3*log2(n) bits to the
+    # error of the approximate power
+    extra = 10 + 4*bitcount(n)
     extra1 = n
     prevp = start
-    for p in giant_steps(start, prec+extra):
+    # like giant_steps(start, prec+extra), but each step keeps a margin
+    # for the bits lost to the approximate power
+    margin = 2 + 2*bitcount(n)
+    steps = [prec+extra]
+    while steps[-1] > start*2:
+        steps.append(steps[-1]//2 + margin)
+    for p in steps[::-1]:
         pm, pe = int_pow_fixed(r, n-1, prevp)
         r2 = rshift(pm, (n-1)*prevp - p - pe - extra1)
         B = lshift(y, 2*p-prec+extra1)//r2
@@ -486,7 +494,7 @@ def mpf_nthroot(s, n, prec, rnd=round_fast):
     else:
         shift -= es%n
     man = rshift(man, shift)
-    extra = 10
+    extra = 10 + 4*bitcount(n)    # as in nthroot_fixed
     exp1 = ((exp+shift-(n-1)*prec2)//n) - extra
     rnd_shift = 0
     if flag_inverse:
